@@ -13,9 +13,10 @@ TRUSTED = [
 ]
 RULE = ("all 9 toggle pairs x section outcomes {valid, silent, malformed, challenge-then-silent} for each section x check_app_id on/off over server states whose "
         "app id is the main id, the dedicated id, another id, or unconstrained (extracted Spec generator); exhaustive over the matrix for each state; "
-        "Valve games of the definitions table (those whose definition switches the app-id check off, and others) through the generic entry point with extra request settings, every field independently unset / set, against a server of the game and one of another game; Unreal 2 games through the generic entry point without extra settings x rules / players section valid, silent, malformed; "
+        "Valve games of the definitions table (those whose definition switches the app-id check off, and others) through the generic entry point with extra request settings, every field independently unset / set, against a server of the game and one of another game; Unreal 2 games through the generic entry point without extra settings x rules / players section valid, silent, malformed; Unreal 2 toggles also with a rules reply that is malformed only after well-formed pairs (a password rule and a mutator); "
         "non-trivial = some section is not valid, skipped, or the app id is rejected; distinct by case bytes")
 OUTCOMES = ["valid", "silent", "malformed", "chsilent"]
+U2_PARTIAL_RULES = b"\x80\x00\x00\x00\x01" + b"\x0dGamePassword\x00\x05True\x00" + b"\x08Mutator\x00\x04Abc\x00" + b"\x05\x41"
 
 
 def gen_cases(tier, rng):
@@ -82,19 +83,22 @@ def gen_cases(tier, rng):
         ti = evs.index(None)
         mr_dgs, pl_dgs = evs[1:ti], evs[ti + 1:]
         for tp, tm in itertools.product(range(3), range(3)):
-            for om, op in itertools.product(OUTCOMES[:3], OUTCOMES[:3]):
+            # "partial": the rules reply is malformed only after well-formed pairs (one of them the password rule): under Try
+            # nothing of it may stay in the response
+            for om, op in itertools.product(OUTCOMES[:3] + ["partial"], OUTCOMES[:3]):
                 if (tm == 0 and om != "valid") or (tp == 0 and op != "valid"):
                     continue
                 script = [info]
                 if tm != 0:
-                    script += (mr_dgs + [None]) if om == "valid" else ([None] if om == "silent" else [b"\x80\x00\x00\x00\x01\x05\x41"])
+                    script += ((mr_dgs + [None]) if om == "valid" else [None] if om == "silent" else [U2_PARTIAL_RULES] if om == "partial"
+                               else [b"\x80\x00\x00\x00\x01\x05\x41"])
                 if tp != 0:
                     script += pl_dgs if op == "valid" else ([None] if op == "silent" else [b"\x80\x00\x00\x00\x02\x01"])
                 pres_m = tm != 0 and om == "valid"
                 pres_p = tp != 0 and op == "valid"
                 fail = None
                 if tm == 2 and om != "valid":
-                    fail = "Err(PacketBad)" if om == "malformed" else "Err(PacketReceive)"
+                    fail = "Err(PacketBad)" if om in ("malformed", "partial") else "Err(PacketReceive)"
                 elif tp == 2 and op != "valid":
                     fail = "Err(PacketUnderflow)" if op == "malformed" else "Err(PacketReceive)"
                 want = fail or ("Ok(" + exp[(1 if pres_p else 0, 1 if pres_m else 0)]["expected"] + ")")
